@@ -23,6 +23,7 @@ fn dispatch(op: &str, args: &[String]) -> String {
         "pipeline" => ops_xml::pipeline(args),
         "pipelinek" => ops_xml::pipelinek(args),
         "roundtrip" => ops_xml::roundtrip(args),
+        "parse2" => ops_xml::parse2(args),
         "print" => ops_xml::print(args),
         "sinks" => ops_xml::sinks(args),
         "attrs" => ops_xml::attrs(args),
